@@ -87,6 +87,15 @@ std::string vf_run(const Case &c, vf::Ctx &ctx) {
   rtosc::MidiMapperRT rt;
   rtosc::MidiMappernRT nrt;
   nrt.base_ports = &App::ports;
+  // every other case a second pair of mappers lives next to the checked one and is driven as well (nothing is shared)
+  rtosc::MidiMapperRT rt2;
+  rtosc::MidiMappernRT nrt2;
+  nrt2.base_ports = &App::ports;
+  nrt2.rt_cb = [](const char *) {};
+  rt2.setFrontendCb([](const char *) {});
+  rt2.setBackendCb([](const char *) {});
+  const bool with_shadow = c.ops.size() % 2 == 0;
+  if (with_shadow) ctx.count("class.second_mapper_pair_alongside");
   struct N2R { std::string msg; bool bind; View view; };
   std::deque<N2R> n2r;
   std::deque<int> r2n;
@@ -118,6 +127,17 @@ std::string vf_run(const Case &c, vf::Ctx &ctx) {
     const Op &o = c.ops[oi];
     std::string W = " at op " + std::to_string(oi) + D;
     bool keep_last = false;
+    if (with_shadow) {
+      // the other pair: its own learn requests (shifted addresses), its own controllers
+      switch (o.kind) {
+        case 0: nrt2.map(PARAMS[(o.addr + 1) % c.naddr].path, !o.coarse); break;
+        case 2: nrt2.unMap(PARAMS[(o.addr + 1) % c.naddr].path, o.coarse); break;
+        case 3: if (oi % 3 == 0) nrt2.clear(); break;
+        case 4: break;
+        case 5: nrt2.useFreeID(100 + (int)oi); break;   // a controller id it has never seen
+        default: rt2.handleCC((o.id + 1) % 8, 127 - o.val); break;
+      }
+    }
     switch (o.kind) {
       case 0: {
         bool already = false;
